@@ -214,7 +214,7 @@ class SystemClockLoopTest_loop {   // friend of SystemClockLoop: read FSM state 
 
 class TLoop: public SystemClockLoop {
   public:
-    TLoop(Clock* r, Clock* b, uint16_t s, uint16_t i, uint16_t to): SystemClockLoop(r, b, s, i, to) {}
+    TLoop(Clock* r, Clock* b, uint16_t s, uint16_t i, uint16_t to, ace_common::TimingStats* stats = nullptr): SystemClockLoop(r, b, s, i, to, stats) {}
     unsigned long clockMillis() const override { return counter_now_ul(); }
 };
 
@@ -282,7 +282,11 @@ static bool run_path(const Cfg& cfg, const std::vector<Step>& path, unsigned lon
   Clock* refp = cfg.wiring == 3 ? nullptr : &ref;
   Clock* bakp = cfg.wiring == 0 ? (Clock*) &ref : (cfg.wiring == 1 ? (Clock*) &bak : nullptr);
   if (cfg.wiring == 3) bakp = &bak;
-  TLoop sys(refp, bakp, cfg.S, cfg.I, cfg.TO);
+  // every other configuration runs with the optional request-timing statistics attached: they observe, they must not steer
+  ace_common::TimingStats stats;
+  bool withStats = ((cfg.S + cfg.I + cfg.wiring + cfg.firstValid) % 2) == 0;
+  long long responsesRead = 0;
+  TLoop sys(refp, bakp, cfg.S, cfg.I, cfg.TO, withStats ? &stats : nullptr);
   TClock shadow(nullptr, nullptr);
   acetime_t lastValid = kInv;
   if (cfg.wiring == 3) {   // no reference: set once by hand so that "keeps time" is observable
@@ -343,6 +347,8 @@ static bool run_path(const Cfg& cfg, const std::vector<Step>& path, unsigned lon
       if (ref.log.size() || bak.log.size()) { key = "c14:noreference-not-quiet"; what = "with no reference clock the loop touched a clock"; }
     }
     if (read && !consulted) { key = "c14:read-without-ready"; what = "readResponse without isResponseReady"; }
+    if (read) responsesRead++;
+    if (withStats) { CNT.add("c14.loop_calls_with_timing_stats"); if (stats.getCounter() != (uint16_t) responsesRead) { key = "c14:timing-stats-miscount"; what = "the attached TimingStats did not record exactly one sample per response read"; } }
     if (read && readv != kInv) {
       // (a) valid response applied immediately
       bool changes = (curReading != readv);
